@@ -160,8 +160,10 @@ def rel_events(run, groups, prop):
                 ev["rel"] = rel
             if c.get("wid"):
                 ev["wid"] = wid_rows(o["rows"])
+            base = g[0][0]
             run.add_event(ev, {"input": c["input"], "entry": c.get("entry", "to_svg"),
-                               "settings": c.get("settings"), "rel": rel, "source": c.get("source", "")})
+                               "settings": c.get("settings"), "rel": rel, "source": c.get("source", ""),
+                               "bases": [{k: v for k, v in base.items() if k != "wid"}] if rel else None})
     return obs
 
 
@@ -261,7 +263,8 @@ def c10(tier):
                 ev["rel"] = rel
             if pos == 0:
                 ev["wid"] = wid_rows(o["rows"])
-            run.add_event(ev, {"input": c["input"], "rel": rel, "a": g[0][0]["input"], "b": g[1][0]["input"]})
+            run.add_event(ev, {"input": c["input"], "rel": rel, "a": g[0][0]["input"], "b": g[1][0]["input"],
+                               "bases": [{"input": g[0][0]["input"]}, {"input": g[1][0]["input"]}] if pos == 2 else None})
     run.samples.append({"a": groups[0][0][0]["input"], "b": groups[0][1][0]["input"], "joined": groups[0][2][0]["input"]})
     run.validate(shard=1500)
     run.assumptions = std_assumptions()
@@ -1190,7 +1193,8 @@ def c18(tier):
             ev = {"props": ["C18"] if rel else [], "rows": o["rows"], "doc": o["doc"], "sha": sha}
             if rel:
                 ev["rel"] = rel
-            run.add_event(ev, {"input": c["input"], "entry": c.get("entry", "to_svg"), "settings": c.get("settings"), "rel": rel})
+            run.add_event(ev, {"input": c["input"], "entry": c.get("entry", "to_svg"), "settings": c.get("settings"), "rel": rel,
+                               "bases": [g[0][0]] if rel else None})
     run.samples.append({"input": corpus[0], "variants": [g[1] for g in groups[0][1:]]})
     run.validate(shard=600)
     run.assumptions = std_assumptions()
